@@ -2143,6 +2143,7 @@ EXTERNAL['time.sleep'] = Builtin('sleep', _noop)
 EXTERNAL['time.time'] = Builtin('time', lambda it, args, kw: it.run.fresh('time', xreal.XReal))
 EXTERNAL['math.isfinite'] = Builtin('isfinite', lambda it, args, kw: xreal.isfinite(xreal.lift(args[0])) if z3.is_expr(args[0]) else __import__('math').isfinite(args[0]))
 EXTERNAL['math.isnan'] = Builtin('isnan', lambda it, args, kw: xreal.is_nan(xreal.lift(args[0])) if z3.is_expr(args[0]) else __import__('math').isnan(args[0]))
+EXTERNAL['math.isinf'] = Builtin('isinf', lambda it, args, kw: z3.And(z3.Not(xreal.isfinite(xreal.lift(args[0]))), z3.Not(xreal.is_nan(xreal.lift(args[0])))) if z3.is_expr(args[0]) else __import__('math').isinf(args[0]))
 EXTERNAL['math.inf'] = float('inf')
 EXTERNAL['math.nan'] = float('nan')
 
